@@ -122,9 +122,9 @@ pub proof fn lemma_filter_commute<A>(s: Seq<A>, p: spec_fn(A) -> bool, q: spec_f
     }
 }
 /// HeaderMap::insert on the append-log view: afterwards the name has exactly the new value, every other name is untouched
-pub broadcast proof fn lemma_insert_effect<T>(s: Seq<(Seq<u8>, T)>, k: Seq<u8>, v: T)
+pub proof fn lemma_insert_effect<T>(s: Seq<(Seq<u8>, T)>, k: Seq<u8>, v: T)
     ensures
-        field_of(#[trigger] without(s, k).push((k, v)), k) =~= seq![v],
+        field_of(without(s, k).push((k, v)), k) =~= seq![v],
         without(without(s, k).push((k, v)), k) =~= without(s, k),
         forall|o: Seq<u8>| o != k ==> #[trigger] field_of(without(s, k).push((k, v)), o) =~= field_of(s, o),
         forall|o: Seq<u8>| o != k ==> #[trigger] without(without(s, k).push((k, v)), o) =~= without(without(s, o), k).push((k, v)),
@@ -148,6 +148,33 @@ pub broadcast proof fn lemma_insert_effect<T>(s: Seq<(Seq<u8>, T)>, k: Seq<u8>, 
         let no = name_is_not::<T>(o);
         lemma_filter_push(w, (k, v), no);
         lemma_filter_commute(s, ne, no);
+    }
+}
+/// HeaderMap::remove on the append-log view
+pub proof fn lemma_remove_effect<T>(s: Seq<(Seq<u8>, T)>, k: Seq<u8>)
+    ensures
+        field_of(without(s, k), k) =~= Seq::<T>::empty(),
+        forall|o: Seq<u8>| o != k ==> #[trigger] field_of(without(s, k), o) =~= field_of(s, o),
+{
+    let ne = name_is_not::<T>(k);
+    let eq = name_is::<T>(k);
+    lemma_filter_then_disjoint(s, ne, eq);
+    assert forall|o: Seq<u8>| o != k implies #[trigger] field_of(without(s, k), o) =~= field_of(s, o) by {
+        let eo = name_is::<T>(o);
+        lemma_filter_commute(s, ne, eo);
+        lemma_filter_elems(s, eo);
+        lemma_all_pass(s.filter(eo), ne);
+    }
+}
+/// appending an entry named k leaves every other name's values alone and adds v at the end of k's
+pub proof fn lemma_push_effect<T>(s: Seq<(Seq<u8>, T)>, k: Seq<u8>, v: T)
+    ensures
+        field_of(s.push((k, v)), k) =~= field_of(s, k).push(v),
+        forall|o: Seq<u8>| o != k ==> #[trigger] field_of(s.push((k, v)), o) =~= field_of(s, o),
+{
+    lemma_filter_push(s, (k, v), name_is::<T>(k));
+    assert forall|o: Seq<u8>| o != k implies #[trigger] field_of(s.push((k, v)), o) =~= field_of(s, o) by {
+        lemma_filter_push(s, (k, v), name_is::<T>(o));
     }
 }
 pub proof fn lemma_all_pass<A>(s: Seq<A>, p: spec_fn(A) -> bool)
@@ -282,3 +309,23 @@ pub assume_specification [String::from_utf8_lossy] (b: &[u8]) -> (r: std::borrow
 pub fn vp_cow_str<'a, 'b>(c: &'b std::borrow::Cow<'a, str>) -> (r: &'b str) ensures r@ == c@ { c }
 /// `Instant::now() + timeout`
 #[verifier::external_body] pub fn vp_deadline(t: Duration) -> Instant { Instant::now() + t }
+
+pub open spec fn all_distinct(s: Seq<Seq<u8>>) -> bool { forall|i: int, j: int| 0 <= i < j < s.len() ==> s[i] != s[j] }
+pub open spec fn std_names() -> Seq<Seq<u8>> {
+    seq![host_name(), conn_name(), cl_name(), te_name(), ctype_name(), accept_name(), ua_name(), ae_name()]
+}
+/// the standard field names used by the request code are pairwise different (lengths 4,10,14,17,12,6,10,15; `c` vs `u`)
+pub proof fn lemma_header_names_distinct()
+    ensures
+        host_name() != conn_name(), host_name() != cl_name(), host_name() != te_name(), host_name() != ctype_name(), host_name() != accept_name(), host_name() != ua_name(), host_name() != ae_name(),
+        conn_name() != cl_name(), conn_name() != te_name(), conn_name() != ctype_name(), conn_name() != accept_name(), conn_name() != ua_name(), conn_name() != ae_name(),
+        cl_name() != te_name(), cl_name() != ctype_name(), cl_name() != accept_name(), cl_name() != ua_name(), cl_name() != ae_name(),
+        te_name() != ctype_name(), te_name() != accept_name(), te_name() != ua_name(), te_name() != ae_name(),
+        ctype_name() != accept_name(), ctype_name() != ua_name(), ctype_name() != ae_name(),
+        accept_name() != ua_name(), accept_name() != ae_name(),
+        ua_name() != ae_name(),
+{
+    assert(host_name().len() == 4); assert(conn_name().len() == 10); assert(cl_name().len() == 14); assert(te_name().len() == 17);
+    assert(ctype_name().len() == 12); assert(accept_name().len() == 6); assert(ua_name().len() == 10); assert(ae_name().len() == 15);
+    assert(conn_name()[0] == 99u8); assert(ua_name()[0] == 117u8);
+}
